@@ -222,16 +222,28 @@ def run(ck):
     # connection's entry of every table keyed by descriptor before the descriptor is closed (a stale toWrite queue would be sent to
     # the next client that gets the number)
     rp = lib.single(prog, T + "removePeer")
-    rdom = cfg.dominators(rp)
-    cl = [e for e in rp.calls(lambda e: (e.get("callee") or "") == "close" and not (e.get("cfile") or "").startswith(facts.REPO))]
-    ck.require(cl, "close() not found in Transport::removePeer")
+    is_close = lambda e: e["k"] == "call" and (e.get("callee") or "") == "close" and not (e.get("cfile") or "").startswith(facts.REPO)
+    rreg = lib.region(prog, rp, within=lambda h_: h_.base.startswith(T) and h_.base != T + "handlePeerDisconnection")
+    cl = [e for h_ in rreg for e in h_.events("call") if is_close(e)]
+    ck.require(cl, "close() not found in Transport::removePeer or its helpers")
     tcls = prog.cls("Pistache::Tcp::Transport")
     keyed = [x["q"] for x in tcls["fields"] if "unordered_map<Fd" in x["type"].replace("Pistache::", "") or "unordered_map<int" in x["type"]]
     keyed = [q for q in keyed if q.rsplit("::", 1)[1] in ("peers", "toWrite")]
     ck.require(len(keyed) >= 2, "descriptor-keyed tables of Transport: %s" % keyed)
     for q in keyed:
-        er = [e for e in rp.calls(lambda e: e.base_callee() == "std::unordered_map::erase" and (e.get("recv") or {}).get("f") == q)]
-        ok = bool(er) and all(cfg.ev_dominates(rdom, er[0], c) for c in cl)
+        is_erase = lambda e, q=q: e["k"] == "call" and e.base_callee() == "std::unordered_map::erase" and (e.get("recv") or {}).get("f") == q
+        er = [e for h_ in rreg for e in h_.events("call") if is_erase(e)]
+        # no path through removePeer (helpers walked through) reaches close() before the entry was erased
+        early = []
+
+        def ostep(st, ev, is_erase=is_erase):
+            if is_erase(ev):
+                return 1
+            if is_close(ev) and st == 0:
+                early.append(ev)
+            return st
+        cfg.run_automaton(rp, 0, lib.inlined_step(prog, ostep, lambda h_: h_.id != rp.id and h_ in rreg))
+        ok = bool(er) and not early
         ck.ob("C09-R3", "removePeer/erases:%s" % q.rsplit("::", 1)[1], ok, er[0].loc if er else rp.loc, rp,
               "entry erased before close(fd)" if ok else
               "removePeer closes the descriptor but keeps its %s entry: the next connection that reuses the number inherits it" % q.rsplit("::", 1)[1])
